@@ -33,6 +33,8 @@ def check(ctx: Ctx, col: Collector, tier: str) -> None:
     col.spec("C09.OFF-IDENTITY", "with naming conversion off every identifier is emitted verbatim", "specialisation of the conversion function for the PYTHON convention", floor=2)
     col.spec("C09.CONVERT-SHAPE", "class names are rendered in UpperCamelCase and all other names in lowerCamelCase: the converter capitalises every part (all but the first for non-class names) "
              "and leaves only '_' untouched", "symbolic result of the conversion function per mode: identity exits and capitalisation of the joined parts", floor=4)
+    col.spec("C09.LOOKUP-SPELLING", "a name is looked up in a table of rendered names under the spelling the table stores: both settings then take the same branches and differ in names only",
+             "wrapper chains (conversion, escaping) of the operands of membership tests on the generator's name tables vs. the chains of the values stored there", floor=2)
     col.spec("C09.FLAG-SLICE", "nothing else in the stubs changes with the flag", "forward slice of convert_identifiers / naming_convention", floor=15)
     col.spec("C09.ANNOT-IFF-DIFF", "a Python-name / Python-module annotation carrying the original is attached exactly when the rendered name differs",
              "per-path comparison of the annotation hole with the fact 'converted == original' at every declaration site", floor=9)
@@ -301,6 +303,56 @@ def check(ctx: Ctx, col: Collector, tier: str) -> None:
                 col.bad("C09.CLASS-MODE", mkey, repo.loc(GEN, None), f"{sorted(conv)}", f"{role} at the {label} is converted with {sorted(conv)}, expected {want_mode}")
             elif conv:
                 col.ok("C09.CLASS-MODE", mkey, repo.loc(GEN, None), f"{sorted(conv)}")
+    # ------------------------------------------------------------------ LOOKUP-SPELLING
+    TABLE = "self.class_generics"
+    cfi2 = repo.function(GEN, f"{GENCLS}._create_class_string")
+    col.touched(cfi2)
+    cit2 = ctx.interp(cfi2)
+    couts = cit2.run_function(cfi2, {"self": Sym("self"), "class_": Sym("class_"), "class_indentation": Sym("ind")}, gen_state())
+
+    def chain_of(text: str) -> tuple[str, ...]:
+        return tuple(x for x, f in (("convert", CONV + "("), ("escape", ESC + "(")) if f in text)
+
+    stored: dict[tuple[str, ...], str] = {}
+    for o in couts:
+        for e in o.effects:
+            if e.kind == "mutate" and e.target == f"{TABLE}.append" and e.args:
+                for h in (holes(e.args[0]) if isinstance(e.args[0], StrT) else [e.args[0]]):
+                    if "name>" in repr(h):
+                        stored.setdefault(chain_of(repr(h)), repr(h)[:90])
+    if not stored:
+        raise AnalysisError("no writer of the class type-parameter table found")
+    ffi2 = repo.function(GEN, f"{GENCLS}._create_function_string")
+    col.touched(ffi2)
+    fit2 = ctx.interp(ffi2)
+    st2 = gen_state()
+    st2.env[TABLE] = Sym(TABLE)
+    fit2.run_function(ffi2, {"self": Sym("self"), "function": Sym("function"), "indentations": Sym("ind"), "is_method": Const(True)}, st2)
+    tl = find_loops(fit2, ffi2, lambda v: "type_var_types" in repr(v))
+    if len(tl) != 1:
+        raise AnalysisError("type variable loop of _create_function_string not found")
+    tnode, _, _, tentry = tl[0]
+    operands = set()
+    for o in run_body(fit2, tnode, tentry.clone(), Sym("TV")):
+        for k, _v in list(o.facts)[len(tentry.facts):]:
+            if k.endswith(f" in <{TABLE}>"):
+                operands.add(k[: -len(f" in <{TABLE}>")])
+    if not operands:
+        raise AnalysisError("no lookup in the class type-parameter table found in _create_function_string")
+    full = ("convert", "escape")
+    for opnd in sorted(operands):
+        w = chain_of(opnd)
+        key = f"{GEN}::{GENCLS}._create_function_string::lookup in {TABLE}"
+        if w == full and full in stored:
+            col.ok("C09.LOOKUP-SPELLING", key, repo.loc(GEN, tnode), f"a method's type variable is looked up as {list(w)}({opnd[-30:]}); the class declaration stores {sorted(map(list, stored))}")
+        else:
+            col.bad("C09.LOOKUP-SPELLING", key, repo.loc(GEN, tnode), f"looked up as `{opnd[:80]}` ({list(w) or 'raw Python name'}); stored spellings {sorted(map(list, stored))}",
+                    f"a method's type variable is looked up in the class's type-parameter table under a spelling ({list(w) or 'the raw Python name'}) that differs from the converted and escaped "
+                    f"spelling the class declaration stores: with naming conversion on the lookup fails for names the conversion changes (`_T`), so methods re-declare the class's type "
+                    f"parameter only under that setting")
+    # the constructor's type variables are stored without conversion: reported by C09.ROLE-PIPELINE (type variable::constructor declaration)
+    col.ok("C09.LOOKUP-SPELLING", f"{GEN}::{GENCLS}._create_class_string::stored spellings", repo.loc(GEN, cfi2.node), f"writers of {TABLE}: {sorted(stored.values())}", nontrivial=True)
+
     col.extra["roles"] = {r: {l: sorted(map(str, p)) for l, p in s.items()} for r, s in sites.items()}
     from .shared import share
     share(ctx, col, "C17", {"C17.FILTER"}, "the same declarations are shown under both settings: the inherited-member filter compares Python names")
